@@ -37,6 +37,11 @@ class Facts:
         # functions that do not exist at the pinned commit are transparent (see inline.py); identity on the pinned tree
         import inline
         self.inlined, self.transparent = inline.apply(self.fns)
+        # helpers that did not exist at the pinned commit and were inlined into their callers: whole-crate
+        # enumerations skip them (their statements are accounted for, once per caller, in the callers)
+        absorbed_names = {n for v in self.inlined.values() for n in v}
+        self.absorbed = {f["id"] for f in self.fns if f["id"] in self.transparent and f["name"] in absorbed_names}
+        self.live_fns = [f for f in self.fns if f["id"] not in self.absorbed]
         self._bodies = {}
         self._by_name = defaultdict(list)
         for f in self.fns:
@@ -819,8 +824,21 @@ class Body:
             if c is not None:
                 v = c.get("val")
                 return v if isinstance(v, (bool, int)) else None
-            l = op_local(op)
-            return env.get(l) if l is not None else None
+            pl = op_place(op)
+            if pl is None:
+                return None
+            v = env.get(pl["l"])
+            for e in pl.get("p") or []:
+                # payload of a known aggregate: (x as Variant).i / x.i
+                if isinstance(e, dict) and "down" in e:
+                    if not (isinstance(v, tuple) and v[0] == "agg" and v[1] == e["down"]):
+                        return None
+                    continue
+                if isinstance(e, dict) and "f" in e and isinstance(v, tuple) and v[0] == "agg" and e["f"] < len(v[2]):
+                    v = v[2][e["f"]]
+                    continue
+                return None
+            return v
 
         def ev(rv, env):
             k = rv["k"]
@@ -856,7 +874,12 @@ class Body:
                 for pat, v in assume_discr.items():
                     if re.search(pat, of):
                         return v
+                v = val({"cp": rv["pl"]}, env)
+                if isinstance(v, tuple) and v[0] == "agg":
+                    return v[1]
                 return None
+            if k == "agg" and rv.get("ak") == "adt" and "variant_idx" in rv and rv.get("adt", "").split("::")[-1] in ("Result", "Option", "ControlFlow"):
+                return ("agg", rv["variant_idx"], tuple(val(f, env) for f in rv["fields"]))
             return None
 
         seen = set()
@@ -898,11 +921,19 @@ class Body:
                     nxt = list(self.succ[bb])
             elif k == "call":
                 d = t["dest"]
+                env0 = dict(env)
                 if not d.get("p"):
                     env.pop(d["l"], None)
                     for pat, v in assume_calls.items():
                         if call_is(t, pat) and d["l"] not in escaped:
                             env[d["l"]] = v
+                    # `?` on a known Result / Option: Ok(v) | Some(v) -> Continue(v), Err | None -> Break
+                    if call_is(t, r"Try>::branch$") and len(t["args"]) == 1 and d["l"] not in escaped:
+                        a = val(t["args"][0], env0)
+                        if isinstance(a, tuple) and a[0] == "agg":
+                            is_res = "Result<" in callee_str(t).split(" as ")[0]
+                            good = (a[1] == 0) if is_res else (a[1] == 1)
+                            env[d["l"]] = ("agg", 0, (a[2][0] if a[2] else None,)) if good else ("agg", 1, (None,))
                 nxt = list(self.succ[bb])
             else:
                 nxt = list(self.succ[bb])
